@@ -39,13 +39,15 @@ func compile(t Term, env *Env) (clauses, error) {
 	if t, ok := t.(Compound); ok && t.Functor() == atomIf && t.Arity() == 2 {
 		var cs clauses
 		head, body := t.Arg(0), t.Arg(1)
+		// The bindings in env aren't available anymore when clause/2 or retract/1 look at the clause.
+		raw := env.simplify(t)
 		iter := altIterator{Alt: body, Env: env}
 		for iter.Next() {
 			c, err := compileClause(head, iter.Current(), env)
 			if err != nil {
 				return nil, typeError(validTypeCallable, body, env)
 			}
-			c.raw = t
+			c.raw = raw
 			cs = append(cs, c)
 		}
 		return cs, nil
